@@ -11,6 +11,7 @@ Tie of the model to the code: Gen.Engine.lexerMode is re-observed on every run a
 `perCall_isolated` (= the oracle)."""
 import itertools
 import json
+import re
 import sys
 import threading
 
@@ -20,10 +21,13 @@ import sched
 import treeutil
 
 ID = 'C01'
-LEAN_MODULES = ['Yaql.Props.C01', 'Yaql.Props.C01Gen']
+LEAN_MODULES = ['Yaql.Props.C01', 'Yaql.Props.C01Gen', 'Yaql.Props.C01Rules']
 REQUIRED_THEOREMS = ['Yaql.Props.C01.perCall_isolated', 'Yaql.Props.C01.sequential_reuse',
                      'Yaql.Props.C01.shared_not_isolated', 'Yaql.Props.C01.done_absorbing',
-                     'Yaql.Props.C01Gen.engine_mode', 'Yaql.Props.C01Gen.current_engine_isolated']
+                     'Yaql.Props.C01Gen.engine_mode', 'Yaql.Props.C01Gen.current_engine_isolated',
+                     'Yaql.Props.C01Gen.all_entry_points_perCall',
+                     'Yaql.Props.C01Rules.rules_blind_isolated', 'Yaql.Props.C01Rules.rules_reset_sequential',
+                     'Yaql.Props.C01Rules.lookbehind_not_isolated', 'Yaql.Props.C01Rules.lookbehind_sandwich']
 TRUSTED = ['ply.lex.Lexer.token reads nothing but the lexer object it is called on (lexdata, lexpos) and the '
            'immutable compiled rule tables shared by clones',
            'ply LRParser.parse keeps its stacks in locals',
@@ -48,12 +52,50 @@ def make_engine():
 
 
 _fresh_cache = {}
+_ref = dict(engine=None, history=[])
+STRICT = set(SHORT + LONG)
+
+
+def fresh_strict(text):
+    """the outcome of `text` on an engine created for this one parse"""
+    return treeutil.parse_outcome(make_engine(), text)
 
 
 def fresh(text):
+    """what `text` gives when parsed alone.  For the fixed texts: on an engine created for this one parse.  For the
+    thousands of generated texts an engine costs too much each: they go one after another through a reference engine that
+    nothing else uses and that is replaced every 200 texts; whenever an outcome under test differs from this reference the
+    verdict is taken against a really fresh engine (`confirm`), so a failure is always 'differs from a fresh engine'."""
     if text not in _fresh_cache:
-        _fresh_cache[text] = treeutil.parse_outcome(make_engine(), text)
+        if text in STRICT:
+            _fresh_cache[text] = fresh_strict(text)
+        else:
+            if _ref['engine'] is None or len(_ref['history']) >= 200:
+                _ref['engine'], _ref['history'] = make_engine(), []
+            _ref['history'].append(text)
+            _fresh_cache[text] = treeutil.parse_outcome(_ref['engine'], text)
     return _fresh_cache[text]
+
+
+def confirm(text, res):
+    """called when an outcome under test differs from fresh(text): make sure fresh(text) is what a really fresh engine
+    gives (else the REFERENCE engine depended on its history: that is a failure of its own, reported here)"""
+    strict = fresh_strict(text)
+    if strict != _fresh_cache.get(text, strict):
+        hist = list(_ref['history'])
+        k = hist.index(text) if text in hist else len(hist) - 1
+        hist = hist[:k + 1]
+        small = hist
+        for n in (1, 2, 4, 8, 16, 32, 64, 128):       # the shortest recent history that still shows it
+            e = make_engine()
+            outs = [treeutil.parse_outcome(e, t) for t in hist[-n - 1:]]
+            if outs[-1] != strict:
+                small = hist[-n - 1:]
+                break
+        res.fail('oracle', 'history-dependence', 'parse of %r on an engine that parsed %d other texts before gave %r, a '
+                 'fresh engine gives %r' % (text, len(small) - 1, _fresh_cache[text], strict), dict(kind='history', texts=small))
+        _fresh_cache[text] = strict
+    return strict
 
 
 def install_points(get_sched):
@@ -86,7 +128,156 @@ def count_steps(engine, text):
     return n[0] + 1
 
 
+def token_class(tok, data):
+    """the class of one fetched token, as fine as the lexer's own vocabulary: one class per operator symbol / bracket /
+    comma, one per literal kind (integer and decimal numerals, the three quote styles, bare and named `$`, words, calls,
+    each keyword constant), end of input, and 'a lexical error was raised by this fetch'"""
+    if tok is None:
+        return 'EOF'
+    ty = tok.type
+    if ty == 'NUMBER':
+        return 'NUMBER:' + type(tok.value).__name__
+    if ty == 'QUOTED_STRING':
+        return 'STRING:' + data[tok.lexpos:tok.lexpos + 1]
+    if ty == 'DOLLAR':
+        return 'DOLLAR:' + ('bare' if tok.value == '$' else 'named')
+    if ty in ('KEYWORD_STRING', 'FUNC', 'TRUE', 'FALSE', 'NULL'):
+        return ty
+    return 'OP:' + str(tok.value)
+
+
+_stream_cache = {}
+_stream_engine = []
+
+
+def fetch_stream(text):
+    """classes of the tokens a parse of `text` fetches, in order, when nothing else runs (on an engine kept for this
+    purpose); the parse passes len(stream) + 1 scheduling points.  Only used to aim schedules and to account coverage."""
+    if text in _stream_cache:
+        return _stream_cache[text]
+    from ply import lex
+    out = []
+    orig = lex.Lexer.token
+
+    def token(self):
+        try:
+            t = orig(self)
+        except Exception:       # noqa - the fetch itself raised (a lexical error)
+            out.append('LEXERR')
+            raise
+        out.append(token_class(t, self.lexdata))
+        return t
+    if not _stream_engine:
+        _stream_engine.append(make_engine())      # used for nothing else, one text after another
+    lex.Lexer.token = token
+    try:
+        treeutil.parse_outcome(_stream_engine[0], text)
+    finally:
+        lex.Lexer.token = orig
+    _stream_cache[text] = out
+    return out
+
+
+def vocabulary():
+    """spellings of every token class of the live default grammar: every operator symbol of the factory's operator list,
+    brackets and comma, and one spelling per literal kind; -> (atoms, classes spelled, ply token types never produced)"""
+    import yaql
+    fac = yaql.YaqlFactory()
+    atoms = []
+    for r in fac.operators:
+        if len(r) > 1:
+            atoms.append({'[]': '[', '{}': '{'}.get(r[0], r[0]))
+    atoms += [']', '}', '(', ')', ',', '1', '1.5', 'a', 'true', 'false', 'null', '$', '$x', "'s'", '"d"', '`v`', 'f(',
+              '#', '__x']
+    atoms = list(dict.fromkeys(atoms))
+    lx = fac.create().lexer
+    classes, types = [], set()
+    for a in atoms:
+        c = lx.clone()
+        c.input(a)
+        try:
+            t = c.token()
+        except Exception:       # noqa
+            classes.append('LEXERR')
+            continue
+        types.add(t.type)
+        classes.append(token_class(t, a))
+    classes = list(dict.fromkeys(classes + ['EOF']))
+    declared = set(getattr(lx, 'lextokens_all', None) or lx.lextokens) | set(lx.lexliterals or ())
+    return atoms, classes, sorted(declared - types)
+
+
+VALUE_ATOMS = ['1', '1.5', 'a', 'true', 'false', 'null', '$', '$x', "'s'", '"d"', '`v`']
+TWIN_ATOMS = ['2', '2.5', 'b', 'false', 'true', 'null', '$y', '$', "'t'", '"e"', '`w`']      # the same classes, other values
+FORMS = ['%s', '%s %s', '%s %s %s', 'f(%s)', 'f(%s, %s)', '[%s, %s]', '{%s => %s}', '$.%s', '$?.%s', '%s.%s', '%s.f(%s)',
+         '(%s)', '%s[%s]', 'f(a => %s)', '- %s', 'not %s']
+
+
+def text_pool(rng, atoms, n_random):
+    """short texts over the whole vocabulary: every atom alone, every ordered pair of atoms, and random fillings of
+    small grammatical forms with atoms (so that every token class is also fetched deep inside valid texts)"""
+    texts = list(atoms)
+    texts += [a + ' ' + b for a in atoms for b in atoms]
+    for _ in range(n_random):
+        f = rng.choice(FORMS)
+        k = f.count('%s')
+        fill = tuple(rng.choice(atoms) if rng.random() < 0.5 else rng.choice(VALUE_ATOMS) for _ in range(k))
+        texts.append(f % fill)
+    for a in atoms:
+        for f in FORMS:
+            k = f.count('%s')
+            for slot in range(k):
+                fill = [rng.choice(VALUE_ATOMS) for _ in range(k)]
+                fill[slot] = a
+                texts.append(f % tuple(fill))
+    return list(dict.fromkeys(texts))
+
+
+class PairCoverage:
+    """which token classes met at a thread switch: `cross[X][Y]` = Y was fetched by one parse directly after ANOTHER parse
+    of the same engine fetched X; `sandwich[(X, Y)]` = one parse fetched X and then Y with fetches of another parse in between"""
+
+    def __init__(self, classes):
+        self.classes = list(classes)
+        self.cross = set()
+        self.sandwich = set()
+
+    def note(self, texts, trace):
+        seen = [0] * len(texts)
+        last = None                 # (thread, class) of the globally previous fetch
+        own_prev = [None] * len(texts)      # (class, foreign fetch since?)
+        for i in trace:
+            r = seen[i]
+            seen[i] += 1
+            if r == 0:
+                continue            # the release that starts the parse (runs up to its first fetch)
+            st = fetch_stream(texts[i])
+            if r - 1 >= len(st):
+                continue
+            c = st[r - 1]
+            if last is not None and last[0] != i:
+                self.cross.add((last[1], c))
+            if own_prev[i] is not None and own_prev[i][1]:
+                self.sandwich.add((own_prev[i][0], c))
+            own_prev[i] = [c, False]
+            for j in range(len(texts)):
+                if j != i and own_prev[j] is not None:
+                    own_prev[j][1] = True
+            last = (i, c)
+
+    def report(self, reachable):
+        cl = self.classes
+        want = [(x, y) for x in cl for y in cl if x in reachable and y in reachable and x != 'LEXERR']
+        missing = [p for p in want if p not in self.cross]
+        return dict(classes=cl, cross_pairs_wanted=len(want), cross_pairs_hit=len(want) - len(missing),
+                    cross_pairs_missing=['%s -> %s' % p for p in missing[:20]],
+                    sandwiched_bigrams=len(self.sandwich),
+                    matrix={x: ''.join('#' if (x, y) in self.cross else '.' for y in cl) for x in cl})
+
+
 STYLES = ['plain', 'options', 'copy']
+# pairs of entry points for two concurrent parses: every combination (6 x 6), those through the same kind of object first
+STYLE_PAIRS = [(a, b) for a in STYLES + ['iface', 'iface-on', 'iface-on-early'] for b in STYLES + ['iface', 'iface-on', 'iface-on-early']]
 
 
 def styled(engine, style):
@@ -99,10 +290,94 @@ def styled(engine, style):
     return engine
 
 
+# ---- how a parse is requested: every public entry point that parses a text with (a lexer / parser of) one engine
+IFACE_STYLES = ['iface', 'iface-on', 'iface-on-early']
+ALL_STYLES = STYLES + IFACE_STYLES
+DATA = {'a': 1, 'b': [1, 2, 3], 'c': {'d': 'x'}, 'true': 5}
+_HEX = re.compile(r'0x[0-9a-fA-F]+')
+_entries = {}
+
+
+def eval_outcome(call, text):
+    """what a caller of an evaluating entry point observes: the value, the parsing error, or any other exception"""
+    from yaql.language import exceptions
+    try:
+        return ['val', repr(call(text))]
+    except exceptions.YaqlParsingException as e:
+        return ['err', type(e).__name__, e.position, str(e)]
+    except Exception as e:      # noqa
+        return ['exc', type(e).__name__, _HEX.sub('0x?', str(e))[:200]]
+
+
+class Entries:
+    """`YaqlInterface` objects on one engine: the root interface, interfaces derived with on(receiver) BEFORE the root
+    evaluated anything, and interfaces derived AFTER its first evaluation"""
+
+    def __init__(self, engine):
+        import yaql
+        from yaql import yaql_interface
+        self.root = yaql_interface.YaqlInterface(yaql.create_context(), engine)
+        self.early = [self.root.on(i) for i in range(3)]
+        self.root('1 + 1')
+        self.late = [self.root.on(i) for i in range(3)]
+
+    def interface(self, style, i):
+        return self.root if style == 'iface' else (self.late if style == 'iface-on' else self.early)[i % 3]
+
+
+def entries(engine):
+    if id(engine) not in _entries:
+        _entries[id(engine)] = (engine, Entries(engine))
+    return _entries[id(engine)][1]
+
+
+def request(engine, style, i, text):
+    """have `engine` parse `text` the way `style` says (thread / position i); -> the observable outcome"""
+    if style in IFACE_STYLES:
+        iface = entries(engine).interface(style, i)
+        return eval_outcome(lambda t: iface(t, DATA), text)
+    if style == 'yaql.eval':
+        import yaql
+        return eval_outcome(lambda t: yaql.eval(t, DATA), text)
+    return treeutil.parse_outcome(styled(engine, style), text)
+
+
+_ref_iface = {}
+_ref_eval_cache = {}
+
+
+def expected(style, text):
+    """the outcome of the same request when nothing else happens: on a fresh engine (trees), through a reference
+    interface used strictly sequentially (evaluating entry points; re-judged against a fresh engine by `confirm_eval`)"""
+    if style in IFACE_STYLES or style == 'yaql.eval':
+        if text not in _ref_eval_cache:
+            if not _ref_iface or _ref_iface['n'] >= 200:
+                _ref_iface.update(e=Entries(make_engine()), n=0)
+            _ref_iface['n'] += 1
+            _ref_eval_cache[text] = eval_outcome(lambda t: _ref_iface['e'].root(t, DATA), text)
+        return _ref_eval_cache[text]
+    return fresh(text)
+
+
+def confirm_expected(style, text, res):
+    if style in IFACE_STYLES or style == 'yaql.eval':
+        strict = eval_outcome(lambda t: Entries(make_engine()).root(t, DATA), text)
+        if strict != _ref_eval_cache.get(text, strict):
+            res.fail('oracle', 'history-dependence', 'YaqlInterface(..)(%r) on an interface that evaluated other texts before '
+                     'gave %r, a fresh engine and interface give %r' % (text, _ref_eval_cache[text], strict),
+                     dict(kind='history', texts=[text]))
+            _ref_eval_cache[text] = strict
+        return strict
+    return confirm(text, res)
+
+
 def run_schedule(engine, texts, schedule, cur, styles=None):
     styles = styles or ['plain'] * len(texts)
-    s = sched.Scheduler([(lambda t=t, st=st: treeutil.parse_outcome(styled(engine, st), t))
-                         for t, st in zip(texts, styles)])
+    for st in styles:
+        if st in IFACE_STYLES:
+            entries(engine)             # interfaces are made before the threads start
+    s = sched.Scheduler([(lambda t=t, st=st, i=i: request(engine, st, i, t))
+                         for i, (t, st) in enumerate(zip(texts, styles))])
     cur[0] = s
     try:
         results = s.run(schedule)
@@ -144,17 +419,21 @@ def run(env, res):
             hist_cases.append([rng.choice(pool) for _ in range(rng.randrange(2, 13))])
     else:
         hist_cases = [c['texts'] for c in cases if c.get('kind') == 'history']
-    for texts in hist_cases:
-        outs = [treeutil.parse_outcome(engine, t) for t in texts]
+    hist_styles = [c.get('style', 'plain') for c in cases if c.get('kind') == 'history'] if cases is not None else None
+    for k_hist, texts in enumerate(hist_cases):
+        # the history goes through one of the entry points (a third of them through the engine itself)
+        sty = hist_styles[k_hist] if hist_styles else (['plain', 'plain'] + ALL_STYLES)[k_hist % 8]
+        stats['entry:' + sty] = stats.get('entry:' + sty, 0) + 1
+        outs = [request(engine, sty, j, t) for j, t in enumerate(texts)]
         stats['histories'] += 1
         stats['invalid_texts'] += sum(1 for t in texts if fresh(t)[0] != 'ok')
         res.case(('h', tuple(texts)), nontrivial=len(set(texts)) > 1 and any(fresh(t)[0] != 'ok' for t in texts),
                  sample=dict(kind='history', texts=texts) if stats['histories'] <= 2 else None)
         for i, (t, o) in enumerate(zip(texts, outs)):
-            if o != fresh(t):
+            if o != expected(sty, t) and o != confirm_expected(sty, t, res):
                 report('oracle', 'history-dependence',
-                       'parse #%d of %r on a reused engine gave %r, a fresh engine gives %r (history %r)' % (
-                           i, t, o, fresh(t), texts[:i]), dict(kind='history', texts=texts[:i + 1]))
+                       'parse #%d of %r on a reused engine (entry point %s) gave %r, a fresh engine gives %r (history %r)' % (
+                           i, t, sty, o, expected(sty, t), texts[:i]), dict(kind='history', texts=texts[:i + 1], style=sty))
                 break
         if res.failures:
             break
@@ -164,10 +443,24 @@ def run(env, res):
     uninstall = install_points(lambda: cur[0])
     try:
         engine = make_engine()
-        steps = {t: count_steps(engine, t) for t in pool}
+        atoms, classes, unspelled = vocabulary()
+        cover = PairCoverage(classes)
+        gen_texts = text_pool(common.make_rng(env['seed'], 'C01-pool'), atoms, 400 if tier == 'quick' else 3000)
 
-        def check_case(texts, schedule, exhaustive, styles=None):
+        class Steps(dict):
+            def __missing__(self, t):
+                self[t] = len(fetch_stream(t)) + 1
+                return self[t]
+        steps = Steps()
+
+        def check_case(texts, schedule, exhaustive, styles=None, family=None):
             s, results = run_schedule(engine, texts, schedule, cur, styles)
+            if hasattr(s, 'trace'):
+                cover.note(texts, s.trace)
+            if family:
+                stats[family] = stats.get(family, 0) + 1
+            for sty_ in styles or ():
+                stats['entry:' + sty_] = stats.get('entry:' + sty_, 0) + 1
             switches = sum(1 for a, b in zip(s.trace, s.trace[1:]) if a != b) if hasattr(s, 'trace') else 0
             res.case(('s', tuple(texts), tuple(schedule), tuple(styles or ())), nontrivial=len(set(texts)) > 1 and switches >= 2,
                      sample=dict(kind='schedule', texts=texts, schedule=schedule, styles=styles)
@@ -178,11 +471,14 @@ def run(env, res):
                        dict(kind='schedule', texts=texts, schedule=schedule, styles=styles))
                 return False
             for i, t in enumerate(texts):
-                want = ('ret', fresh(t))
+                sty = (styles or ['plain'] * len(texts))[i]
+                want = ('ret', expected(sty, t))
+                if results[i] != want:
+                    want = ('ret', confirm_expected(sty, t, res))
                 if results[i] != want:
                     report('oracle', 'interference',
                            'thread %d parsing %r under schedule %r (other texts %r) got %r; alone on a fresh engine: %r'
-                           % (i, t, s.trace, texts, results[i], fresh(t)) + (' call styles %r' % (styles,) if styles else ''),
+                           % (i, t, s.trace, texts, results[i], want[1]) + (' call styles %r' % (styles,) if styles else ''),
                            dict(kind='schedule', texts=texts, schedule=s.trace, styles=styles))
                     return False
             return True
@@ -192,10 +488,76 @@ def run(env, res):
                 if c.get('kind') == 'schedule':
                     check_case(c['texts'], c['schedule'], False, c.get('styles'))
         elif not res.failures:
-            # exhaustive: 2 threads x short texts
-            pairs = list(itertools.product(SHORT, SHORT))
+            # (b1) DIRECTED: every ordered pair (X, Y) of token classes of the vocabulary meets at a switch point - one parse
+            # fetches X, the very next fetch on the engine is Y by another parse (each class carried by a text drawn from
+            # the generated pool, at whatever depth of the text it occurs), the remainder of both parses interleaved at
+            # random.  So whatever one token fetch leaves behind for the next one - for whichever pair of token kinds - is
+            # seen by a parse it does not belong to.
+            carriers = {}
+            for t in gen_texts:
+                for idx, c in enumerate(fetch_stream(t)):
+                    lst = carriers.setdefault(c, [])
+                    if len(lst) < 60 or rng.random() < 0.05:
+                        lst.append((t, idx))
+            reachable = set(carriers)
+            rounds = 1 if tier == 'quick' else 4
+            order = [(x, y) for x in classes for y in classes if x in reachable and y in reachable and x != 'LEXERR']
+            for rnd in range(rounds):
+                rng.shuffle(order)
+                for n_pair, (x, y) in enumerate(order):
+                    if res.failures:
+                        break
+                    ta, p_ = rng.choice(carriers[x])
+                    tb, q_ = rng.choice(carriers[y])
+                    head = [0] * (p_ + 1) + [1] * (q_ + 1) + [0, 1]
+                    rest = [0] * max(0, steps[ta] - p_ - 2) + [1] * max(0, steps[tb] - q_ - 2)
+                    texts = [ta, tb]
+                    if rnd % 2 == 1 and n_pair % 3 == 0:       # a third parse running along once X and Y have met
+                        tc = rng.choice(gen_texts)
+                        texts.append(tc)
+                        rest += [2] * steps[tc]
+                    rng.shuffle(rest)
+                    schedule = head + rest
+                    check_case(texts, schedule, False, list(STYLE_PAIRS[n_pair % len(STYLE_PAIRS)]) + ['plain'] * (len(texts) - 2),
+                               family='schedules_directed_pairs')
+            # (b1') VALUE TWINS: pairs of short texts that are fillings of the small grammatical forms, most of them valid (so
+            # that every kind of reduction runs, and more than one per text), where the second text spells the same token
+            # classes with OTHER values (`2` for `1`, `$y` for `$x`, `g(` for `f(` ...): whatever one parse leaves behind between
+            # two of its reductions - not only between two fetches - shows in the other's tree.  Random interleavings.
+            def form_text(values, rename):
+                for _ in range(6):
+                    f = rng.choice(FORMS)
+                    t = (f.replace('f(', 'g(').replace('a =>', 'b =>') if rename else f) % tuple(
+                        rng.choice(values) for _ in range(f.count('%s')))
+                    if fresh(t)[0] == 'ok' or rng.random() < 0.15:
+                        return t
+                return t
+            for n_tw in range(4000 if tier == 'quick' else 12000):
+                if res.failures:
+                    break
+                if n_tw % 2 == 0:
+                    ta, tb = form_text(VALUE_ATOMS, False), form_text(TWIN_ATOMS, True)
+                    texts = [ta, tb] if n_tw % 4 else [tb, ta]
+                    # the second parse runs from start to end between two steps of the first (a random cut) ...
+                    cut = rng.randrange(1, max(2, steps[texts[0]]))
+                    schedule = [0] * cut + [1] * steps[texts[1]] + [0] * (steps[texts[0]] - cut)
+                else:
+                    # ... and the same pair freely interleaved
+                    schedule = [i for i, t in enumerate(texts) for _ in range(steps[t])]
+                    rng.shuffle(schedule)
+                check_case(texts, schedule, False, list(STYLE_PAIRS[(n_tw // 2) % len(STYLE_PAIRS)]), family='schedules_value_twins')
+            # (b2) exhaustive: 2 threads x short texts (the fixed ones and generated ones that together spell every class)
+            short_gen = []
+            uncovered = set(reachable)
+            for t in sorted(gen_texts, key=lambda t: (steps[t], t)):
+                st = set(fetch_stream(t))
+                if steps[t] <= 5 and st & uncovered:
+                    short_gen.append(t)
+                    uncovered -= st
+            short_all = list(dict.fromkeys(SHORT + short_gen))
+            pairs = list(itertools.product(short_all, short_all))
             rng.shuffle(pairs)
-            budget = 6000 if tier == 'quick' else 120000
+            budget = 2500 if tier == 'quick' else 80000
             done = 0
             for a, b in pairs:
                 if done >= budget or res.failures:
@@ -203,7 +565,7 @@ def run(env, res):
                 if steps[a] + steps[b] > (10 if tier == 'quick' else 12):
                     continue
                 # all call-style pairs rotate over the text pairs (every style pair is hit many times)
-                st = [STYLES[done % 3], STYLES[(done // 3) % 3]]
+                st = list(STYLE_PAIRS[(done // 7) % len(STYLE_PAIRS)])
                 for schedule in sched.interleavings([steps[a], steps[b]]):
                     done += 1
                     if not check_case([a, b], schedule, True, st):
@@ -211,21 +573,30 @@ def run(env, res):
             # exhaustive: 3 threads x very short texts
             triples = [t for t in itertools.product(SHORT, repeat=3) if sum(steps[x] for x in t) <= (8 if tier == 'quick' else 9)]
             rng.shuffle(triples)
-            for tr in triples[:6 if tier == 'quick' else 60]:
+            for tr in triples[:6 if tier == 'quick' else 45]:
                 if res.failures:
                     break
                 for schedule in sched.interleavings([steps[x] for x in tr]):
                     if not check_case(list(tr), schedule, True):
                         break
-            # random schedules over long texts, 2-3 threads
-            for _ in range(300 if tier == 'quick' else 6000):
+            # random schedules over long texts, 2-3 threads; half of the texts are drawn from the whole vocabulary (token
+            # soups and fillings of grammatical forms), the other half from the fixed pool
+            def long_text():
+                if rng.random() < 0.5:
+                    return ' '.join(rng.choice(atoms) for _ in range(rng.randrange(3, 12)))
+                parts = []
+                for _ in range(rng.randrange(2, 5)):
+                    f = rng.choice(FORMS)
+                    parts.append(f % tuple(rng.choice(VALUE_ATOMS + atoms[:6]) for _ in range(f.count('%s'))))
+                return (' %s ' % rng.choice(['+', 'and', '.', '?.', '->', '=', 'in', ','])).join(parts)
+            for _ in range(300 if tier == 'quick' else 5000):
                 if res.failures:
                     break
                 k = rng.choice([2, 2, 3])
-                texts = [rng.choice(pool) for _ in range(k)]
+                texts = [rng.choice(pool) if rng.random() < 0.5 else long_text() for _ in range(k)]
                 schedule = [i for i, t in enumerate(texts) for _ in range(steps[t])]
                 rng.shuffle(schedule)
-                check_case(texts, schedule, False, [rng.choice(STYLES) for _ in texts])
+                check_case(texts, schedule, False, [rng.choice(ALL_STYLES + ['yaql.eval']) for _ in texts])
     finally:
         uninstall()
 
@@ -233,6 +604,7 @@ def run(env, res):
     if cases is None and not res.failures:
         import yaql
         ctx0 = yaql.create_context()
+        want_cache = {}
         lits = ["'a b'", "'a  b'", "'a\tb'", '"a b"', "'A b'", "' a b'", "`a  b`", "'a b '", "'ab'"]
         forms = ['%s', '%s + %s', '[%s, %s]', '%s = %s', '  %s', '%s  ', 'len(%s)', '(%s)', '%s+%s', '[ %s,%s ]']
         variants = []
@@ -252,7 +624,9 @@ def run(env, res):
                     except Exception as e:  # noqa
                         return ['err', type(e).__name__, str(e)]
                 got = ev(lambda: yaql.eval(t, data={'a': 1}))
-                want = ev(lambda: make_engine()(t).evaluate(data={'a': 1}, context=ctx0.create_child_context()))
+                if t not in want_cache:         # an engine of its own for every distinct text
+                    want_cache[t] = ev(lambda: make_engine()(t).evaluate(data={'a': 1}, context=ctx0.create_child_context()))
+                want = want_cache[t]
                 stats['eval_cache_parses'] += 1
                 if got != want:
                     report('oracle', 'history-dependence',
@@ -337,6 +711,10 @@ def run(env, res):
 
     res.traces = stats['histories'] + stats['schedules_exhaustive'] + stats['schedules_random']
     res.extra['distribution'] = stats
+    if 'cover' in dir():
+        res.extra['histogram'] = dict(token_class_pairs_at_switch_points=cover.report(reachable if 'reachable' in dir() else set()),
+                                      token_types_of_the_grammar_never_spelled=unspelled,
+                                      generated_texts=len(gen_texts))
     res.extra['exhaustive'] = False
     res.extra['steps_per_text'] = {t: steps[t] for t in SHORT} if 'steps' in dir() else {}
     return res
@@ -349,7 +727,13 @@ LEVEL_TEXT = ('Lean 4 theorems, generic in the tokeniser and the LR automaton: w
               'live engine is re-observed and re-proved per run (C01Gen.engine_mode, current_engine_isolated). The real '
               'code is run under a deterministic scheduler at token-fetch granularity (all interleavings for short texts, '
               'random for long, 2-3 threads), on histories in all orders, and free-running under a 1 us switch interval; '
-              'every outcome is compared with a fresh engine.')
+              'every outcome is compared with a fresh engine. Round 5: state parked on the engine-wide rules objects is modelled '
+              '(MachineR): harmless for every schedule iff no fetch reads it (rules_blind_isolated), invisible to sequential use when '
+              'input() resets it (rules_reset_sequential), breaking isolation otherwise (lookbehind witnesses); schedules put every '
+              'ordered pair of token classes of the live grammar at a switch point (coverage matrix in the evidence), pair texts that '
+              'spell the same classes with other values, and request parses through every public entry point (engine, options=, copy, '
+              'YaqlInterface root / on() early / on() late, yaql.eval); the lexer object per entry point is re-observed per run '
+              '(C01Gen.all_entry_points_perCall).')
 LEVEL_NOTE = ('partial: the atomic step is one Lexer.token call (the property\'s own granularity); that ply\'s token() and '
               'parse() touch no other shared mutable state is trusted and covered only by the schedule exploration and the '
               'stress run. Trusted: Lean kernel, harness/sched.py, the lexer-identity observation in harness/gens/engine.py.')
